@@ -1168,7 +1168,12 @@ def run_case(case):
                 _do_restart(ctx)
             except Exception as e:
                 out = "raised " + type(e).__name__
-                ctx.v("stage raised", {"op": kind, "exc": type(e).__name__}, {"seq": seq, "exc": repr(e)[:400]})
+                if kind in ("split", "grid", "init_alloc", "refine", "uniform", "griddify", "load_net", "load_die", "load_alloc"):
+                    # a library stage that refuses its input is the subject of other properties (C01, C03, C11, C02/C12);
+                    # C19 judges producers and readers only
+                    ctx.probe("stage_refused_input_" + kind)
+                else:
+                    ctx.v("stage raised", {"op": kind, "exc": type(e).__name__}, {"seq": seq, "exc": repr(e)[:400]})
             ctx.hist.append({"seq": seq, "op": kind, "obj": o.get("obj"), "to": o.get("to") or o.get("via"), "out": out})
             ctx.sig.append((kind, o.get("obj") or o.get("type") or "", o.get("to") or o.get("via") or "", out.split("(")[0],
                             (o.get("fault") or {}).get("kind", "")))
